@@ -213,6 +213,23 @@ def _loaders(ctx, cfg):
                             ctx.holds("load_data/bases returned as written (strings, at least 1-d)" + t, isinstance(out[i], np.ndarray) and out[i].shape == bs.shape and bool((out[i] == bs).all()) and any(c[0] == "B" and c[1] is str and c[2] >= 1 for c in calls))
                         ctx.holds("load_data/numeric files read as float32, bases as str" + t,
                                   all((c[1] == "float32") if c[0] in ("S", "P") else (c[1] is str) for c in calls))
+            # history: the same paths are loaded again after the files were rewritten (the next data set under the same name,
+            # a relative path used from another working directory): every load returns what the files hold NOW
+            old_tab = dict(table)
+            table["S"] = 1.0 - samples
+            table["P"] = (psi * -2.0).astype("float32")
+            table["R"], table["I"] = (re_ + 1.0).astype("float32"), (im_ - 1.0).astype("float32")
+            table["TB"] = trb[::-1].copy()
+            table["B"] = bs[::-1].copy()
+            o2 = D.load_data("S", "P", "TB", "B")
+            ctx.holds("load_data/history: a second load of the same paths returns the current file contents[n=%d]" % nq,
+                      torch.equal(o2[0], torch.tensor(1.0 - samples, dtype=torch.double)) and torch.equal(o2[1][0], torch.tensor(psi[:, 0] * -2.0, dtype=torch.double))
+                      and bool((o2[2] == trb[::-1]).all()) and bool((o2[3] == bs[::-1]).all()))
+            o3 = D.load_data_DM("S", "R", "I", "TB", "B")
+            ctx.holds("load_data_DM/history: a second load of the same paths returns the current file contents[n=%d]" % nq,
+                      torch.equal(o3[0], torch.tensor(1.0 - samples, dtype=torch.double)) and torch.equal(o3[1][0], torch.tensor(re_ + 1.0, dtype=torch.double))
+                      and torch.equal(o3[1][1], torch.tensor(im_ - 1.0, dtype=torch.double)) and bool((o3[2] == trb[::-1]).all()))
+            table.update(old_tab)
             for r in (None, "R"):
                 for im in (None, "I"):
                     t = "[n=%d real=%s imag=%s]" % (nq, r, im)
